@@ -26,6 +26,21 @@ PLAN = {
     "C18": both((400, 40), (8000, 420)),
 }
 
+
+
+def mon(name, configs=("A",), args=()):
+    return [{"monitor": name, "config": c, "args": list(args)} for c in configs]
+
+
+PLAN.update({
+    "C07": {"quick": mon("c07", ("A",)), "thorough": mon("c07", ("A", "B"))},
+    "C08": {"quick": mon("c08", ("A", "B")), "thorough": mon("c08", ("A", "B"))},
+    "C12": {"quick": mon("c12", ("A",)), "thorough": mon("c12", ("A", "B"))},
+    "C15": {"quick": mon("c15", ("A",)), "thorough": mon("c15", ("A",))},
+    "C16": {"quick": mon("c16", ("A",)), "thorough": mon("c16", ("A", "B"))},
+    "C17": {"quick": mon("c17", ("A", "B")), "thorough": mon("c17", ("A", "B"))},
+})
+
 LEVEL = {
     "C01": "exploration", "C02": "exploration", "C03": "exploration", "C04": "exploration",
     "C05": "exploration", "C06": "exploration", "C07": "fault_enumeration", "C08": "fault_enumeration",
@@ -115,6 +130,69 @@ RULES = {
         "min_evaluations": {"quick": 3000, "thorough": 30000},
     },
 }
+
+RULES.update({
+    "C07": {
+        "rule": "bases: classic 1/3-target, hybridized 1/2-target, mixed-hint 2-target, broadcast; keys: authorized for each, "
+                "unauthorized, '*'. Mutations: EVERY bit of the serialized encapsulation; permute/drop/duplicate entries; swap F "
+                "or ML-KEM ciphertexts between entries; splice tag/traps/entries with same- and other-policy encapsulations; "
+                "drop/append/permute traps; flavour byte raw and resized; PKE: every bit and every truncation of nonce||ct||tag, "
+                "KEM part swapped; header: every bit of the encrypted metadata, swaps. A mutant that deserializes to an object "
+                "equal to the original is 'equivalent encoding' and not judged. Distinct non-trivial = distinct (base, operator "
+                "or byte region) whose mutant deserialized to a different object and was decapsulated by every key.",
+        "evaluation_counters": ["decaps_of_mutants", "pke_mutants", "header_mutants"],
+        "min_evaluations": {"quick": 50000, "thorough": 100000},
+        "exhaustive": {"quick": True, "thorough": True},
+    },
+    "C08": {
+        "rule": "catalogue of named tamper operators applied through the independent wire writer to issued keys (2-9 rights, "
+                "1-3 revisions, classic/hybridized/mixed): remove/duplicate/rename/reorder chains, move/copy/drop/duplicate/"
+                "reorder secrets, flavour changes, re-framings of the MAC byte stream (merge/split on the empty right, shift "
+                "the right-name boundary by k bytes, re-flag a hybridized secret as classic run), bit flips of id/secrets/"
+                "signature, stripped signature, splices of two issued keys, key of another master key, id unknown to an older "
+                "serialization. Distinct non-trivial = distinct (operator, flavour) pairs whose tampered key deserialized to "
+                "a non-issued object and was submitted to refresh with both flags.",
+        "evaluation_counters": ["refresh_attempts_on_non_issued_keys"],
+        "min_evaluations": {"quick": 20000, "thorough": 100000},
+    },
+    "C12": {
+        "rule": "plaintext lengths 0..80,255,256,4095,4096,65537; metadata absent/empty/1..40/1000; AAD absent/empty/x/y/33B in all "
+                "5x5 (generate, decrypt) pairs; keys authorized/lower/unauthorized/'*'; classic and hybridized; every truncation "
+                "and bit flips of ciphertext and encrypted metadata; objects round-tripped through bytes before use. Distinct "
+                "non-trivial = distinct (layer, flavour, length class, AAD pair, authorization) combinations evaluated.",
+        "evaluation_counters": ["pke_decryptions", "header_decryptions", "pke_truncations", "pke_bitflips", "header_truncations", "header_bitflips"],
+        "min_evaluations": {"quick": 20000, "thorough": 100000},
+    },
+    "C15": {
+        "rule": "totality: ALL strings over {A : & | ( ) space * e-acute CJK emoji} up to length 6 (quick) / 7 (thorough) plus random "
+                "strings of 8-48 symbols; every accepted string's DNF is checked against its own tree under all assignments. "
+                "Faithfulness: random formulas (<= 8 leaves, names with inner spaces and multi-byte characters, half of them "
+                "ASCII-only) printed with random spacing/redundant parentheses, parsed, compared with the source under all "
+                "assignments (tree and DNF), names compared exactly. Distinct non-trivial = distinct formula shapes mixing AND "
+                "and OR (precedence matters).",
+        "evaluation_counters": ["strings_parsed", "formulas"],
+        "min_evaluations": {"quick": 1000000, "thorough": 10000000},
+        "exhaustive": {"quick": True, "thorough": True},
+    },
+    "C16": {
+        "rule": "N identical calls (64k quick / 1.6M thorough) of encaps, PKE encrypt, header generate, keygen, rekey on 4 "
+                "instances each shared by 4 threads; every value that must be fresh goes to a hash set (secrets, tags, traps, "
+                "F, ML-KEM ciphertexts, PKE/header nonces, user ids, published H/ek after each rekey); nonce bit positions must "
+                "all vary; the caller's header secret must not decrypt the metadata. Distinct non-trivial = (kind of value, order "
+                "of magnitude observed).",
+        "evaluation_counters": ["values_observed"],
+        "min_evaluations": {"quick": 100000, "thorough": 1000000},
+    },
+    "C17": {
+        "rule": "histories of keygen / refresh (either flag) / MSK round trip / rekey / USK round trip with up to 24 (quick) / 60 "
+                "(thorough) users; after each step, for every live key: id registered, distinct, sum a_i*t_i = s and P_i = t_i*G "
+                "recomputed in the harness on the curve library, usk.ps = mpk.tpk = [P_i]; a key is also refreshed against an "
+                "older serialization of the master key that does not know its id (must be refused). Distinct non-trivial = "
+                "(number of users, operation sequence) with >= 2 users and an unknown-id attempt.",
+        "evaluation_counters": ["relations_checked", "unknown_id_refresh_attempts"],
+        "min_evaluations": {"quick": 20000, "thorough": 200000},
+    },
+})
 
 ASSUMPTIONS = {
     "*": [
